@@ -24,6 +24,7 @@ import (
 
 	"github.com/apmckinlay/gsuneido/compile"
 	"github.com/apmckinlay/gsuneido/compile/ast"
+	tok "github.com/apmckinlay/gsuneido/compile/tokens"
 	. "github.com/apmckinlay/gsuneido/core"
 	lib "github.com/apmckinlay/gsuneido/util/zzverif"
 )
@@ -105,6 +106,97 @@ func (r *v25row) exceptions(e *vexpr, th *Thread) (empty, negprefix bool) {
 	return
 }
 
+var v25cmpTok = map[tok.Token]string{tok.Is: "is", tok.Isnt: "ne", tok.Lt: "lt", tok.Lte: "le", tok.Gt: "gt", tok.Gte: "ge"}
+
+// v25toks prints the expression the engine evaluates (after the parser's constant folding) in
+// the model's prefix notation; ok=false for node kinds outside the model
+func v25toks(e ast.Expr, ids *vids) (s string, ok bool) {
+	nest := func(op string, parts []string) string {
+		s := parts[len(parts)-1]
+		for i := len(parts) - 2; i >= 0; i-- {
+			s = op + " " + parts[i] + " " + s
+		}
+		return s
+	}
+	switch e := e.(type) {
+	case *ast.Constant:
+		if sh := vshow(e.Val); sh[0] != '?' {
+			return "k" + sh, true
+		}
+	case *ast.Ident:
+		return "c" + strconv.Itoa(ids.id(e.Name)), true
+	case *ast.Unary:
+		x, ok := v25toks(e.E, ids)
+		switch {
+		case !ok:
+		case e.Tok == tok.Not:
+			return "not " + x, true
+		case e.Tok == tok.Sub:
+			return "neg " + x, true
+		case e.Tok == tok.LParen:
+			return x, true
+		}
+	case *ast.Binary:
+		x, ok1 := v25toks(e.Lhs, ids)
+		y, ok2 := v25toks(e.Rhs, ids)
+		if op, ok := v25cmpTok[e.Tok]; ok && ok1 && ok2 {
+			return op + " " + x + " " + y, true
+		}
+	case *ast.Trinary:
+		c, ok1 := v25toks(e.Cond, ids)
+		x, ok2 := v25toks(e.T, ids)
+		y, ok3 := v25toks(e.F, ids)
+		if ok1 && ok2 && ok3 {
+			return "if " + c + " " + x + " " + y, true
+		}
+	case *ast.In:
+		x, ok := v25toks(e.E, ids)
+		var vals []Value
+		for _, v := range e.Exprs {
+			c, isc := v.(*ast.Constant)
+			if !isc {
+				return "", false
+			}
+			vals = append(vals, c.Val)
+		}
+		if ok {
+			return "in " + vshowVals(vals) + " " + x, true
+		}
+	case *ast.InRange:
+		x, ok1 := v25toks(e.E, ids)
+		o, ok2 := v25toks(e.Org, ids)
+		n, ok3 := v25toks(e.End, ids)
+		if ok1 && ok2 && ok3 {
+			return "and " + v25cmpTok[e.OrgTok] + " " + x + " " + o + " " + v25cmpTok[e.EndTok] + " " + x + " " + n, true
+		}
+	case *ast.Nary:
+		parts := make([]string, len(e.Exprs))
+		for i, x := range e.Exprs {
+			p, ok := v25toks(x, ids)
+			if !ok {
+				return "", false
+			}
+			parts[i] = p
+		}
+		switch e.Tok {
+		case tok.And:
+			return nest("and", parts), true
+		case tok.Or:
+			return nest("or", parts), true
+		case tok.Add: // a - b is Add[a, Unary(Sub, b)]
+			return nest("add", parts), true
+		case tok.Mul:
+			for _, x := range e.Exprs {
+				if u, ok := x.(*ast.Unary); ok && u.Tok == tok.Div {
+					return "", false
+				}
+			}
+			return nest("mul", parts), true
+		}
+	}
+	return "", false
+}
+
 func TestVerifC25(t *testing.T) {
 	tr := lib.Open()
 	defer tr.Close()
@@ -164,9 +256,11 @@ func TestVerifC25(t *testing.T) {
 		}
 		lang, lerr := row.language(src, th)
 		var eng Value
-		var canraw bool
+		var canraw, modelled bool
+		var toks string
 		eerr := lib.Catch(func() {
 			x := v25parse(src)
+			toks, modelled = v25toks(x, ids)
 			canraw = x.CanEvalRaw(flds)
 			eng = x.Eval(&ast.RowContext{Th: th, Hdr: row.hdr, Row: row.row})
 		})
@@ -198,8 +292,12 @@ func TestVerifC25(t *testing.T) {
 		for j, v := range vals {
 			rowS[j] = strconv.Itoa(j) + ":" + vshow(v)
 		}
-		tr.Q("ev "+ids.list(flds)+" "+strings.Join(rowS, ",")+" "+e.toks(ids),
-			vshow(lang)+" "+vshow(eng)+" "+lib.B(canraw))
+		if modelled {
+			tr.Q("ev "+ids.list(flds)+" "+strings.Join(rowS, ",")+" "+toks,
+				vshow(lang)+" "+vshow(eng)+" "+lib.B(canraw))
+		} else {
+			tr.Count("outside-model")
+		}
 		if vshow(eng) != vshow(lang) {
 			empty, neg := row.exceptions(e, th)
 			switch {
